@@ -77,6 +77,33 @@ static void run_library(const Setup &s, int cap, Exec &ex){
     }catch(std::exception &e){ ex.thrown = e.what(); }
 }
 
+// ---------------------------------------------------------------- the same call through the exported C entry points (what the Python module and any C caller use)
+extern "C" {
+    void* tsgGradientDescentState_Construct(const int num_dimensions, const double x0[], const double initial_stepsize);
+    void tsgGradientDescentState_Destruct(void* state);
+    double tsgGradientDescentState_GetAdaptiveStepsize(void* state);
+    void tsgGradientDescentState_GetX(void* state, double x_out[]);
+    TasOptimization::OptimizationStatus tsgGradientDescent_AdaptProj(double (*f)(const int, const double[], int[]), void (*g)(const int, const double[], double[], int[]), void (*p)(const int, const double[], double[], int[]),
+                                                                     const double increase_coeff, const double decrease_coeff, const int max_iterations, const double tolerance, void* state, int* err);
+    TasOptimization::OptimizationStatus tsgGradientDescent_Adapt(double (*f)(const int, const double[], int[]), void (*g)(const int, const double[], double[], int[]),
+                                                                 const double increase_coeff, const double decrease_coeff, const int max_iterations, const double tolerance, void* state, int* err);
+    TasOptimization::OptimizationStatus tsgGradientDescent_Const(void (*g)(const int, const double[], double[], int[]), const double stepsize, const int max_iterations, const double tolerance, void* state, int* err);
+}
+static const Setup *c_setup = nullptr; static Exec *c_exec = nullptr;
+static double c_obj(const int n, const double x[], int err[]){ double v = objective(c_setup->obj, x); c_exec->log.add('F', x, (size_t) n, &v, 1); c_exec->nF++; *err = 0; return v; }
+static void c_grad(const int n, const double x[], double g[], int err[]){ gradient(c_setup->obj, x, g); c_exec->log.add('G', x, (size_t) n, g, (size_t) n); c_exec->nG++; *err = 0; }
+static void c_proj(const int n, const double z[], double y[], int err[]){ projection(c_setup->proj, n, z, y); c_exec->log.add('P', z, (size_t) n, y, (size_t) n); c_exec->nP++; *err = 0; }
+static void run_library_c(const Setup &s, int cap, Exec &ex){
+    c_setup = &s; c_exec = &ex; std::vector<double> x0 = start_point(s); int d = s.dims(), err = 0;
+    void *state = tsgGradientDescentState_Construct(d, x0.data(), s.s0); TasOptimization::OptimizationStatus st;
+    if (s.variant == 1) st = tsgGradientDescent_Const(c_grad, s.s0, cap, s.tol, state, &err);
+    else if (s.proj == 0) st = tsgGradientDescent_Adapt(c_obj, c_grad, s.inc, s.dec, cap, s.tol, state, &err);
+    else st = tsgGradientDescent_AdaptProj(c_obj, c_grad, c_proj, s.inc, s.dec, cap, s.tol, state, &err);
+    ex.x.resize((size_t) d); tsgGradientDescentState_GetX(state, ex.x.data()); ex.stepsize = tsgGradientDescentState_GetAdaptiveStepsize(state); ex.performed = st.performed_iterations; ex.residual = st.residual;
+    if (err != 0) ex.thrown = "error code " + std::to_string(err);
+    tsgGradientDescentState_Destruct(state);
+}
+
 // ---------------------------------------------------------------- reference model stepping on the logged values
 // slack: what the passed descent tests allow the objective to grow in total. A passed test guarantees f(y) <= f(x) + <g, y-x> + |y-x|^2/(2 stepsize) + 1e-12;
 // for an exact projection of x - stepsize g onto a convex set containing x the middle terms are <= 0 (hence "descent"), with a projection that is only exact up
@@ -152,6 +179,15 @@ static void exec_setup(const Setup &s, Delta &d){
         if (g_sh) g_sh->aux = cap;
         Exec ex; run_library(s, cap, ex); d.execs++; d.transitions += (long) ex.log.ev.size();
         if (!ex.thrown.empty()){ d.viol("C19:exception", case_json(s, cap), ex.thrown); continue; }
+        { // the C entry point must behave as the C++ call: same callbacks with the same arguments in the same order, same final state and status
+            Exec ec; run_library_c(s, cap, ec); d.execs++; d.evals++;
+            bool same = ec.thrown.empty() && ec.log.ev.size() == ex.log.ev.size() && ec.log.data.size() == ex.log.data.size() && same_bits(ec.x, ex.x) && ec.performed == ex.performed && same_bits_n(&ec.residual, &ex.residual, 1)
+                        && (s.variant == 1 || same_bits_n(&ec.stepsize, &ex.stepsize, 1));
+            if (same) for(size_t i=0;i<ex.log.ev.size() && same;i++) if (ec.log.ev[i].t != ex.log.ev[i].t) same = false;
+            if (same && !same_bits_n(ec.log.data.data(), ex.log.data.data(), ex.log.data.size())) same = false;
+            if (!same) d.viol(std::string("C19:c-interface-differs:") + vn, case_json(s, cap), "cap " + std::to_string(cap) + ": C++ call: " + std::to_string(ex.performed) + " iterations, " + std::to_string(ex.log.ev.size()) + " callbacks, x = " + vstr(ex.x)
+                              + "; tsgGradientDescent_* call: " + (ec.thrown.empty() ? "" : ec.thrown + ", ") + std::to_string(ec.performed) + " iterations, " + std::to_string(ec.log.ev.size()) + " callbacks, x = " + vstr(ec.x));
+        }
         d.state(hcomb(sh, (uint64_t) ex.log.ev.size()));
         d.dist(hcomb(sh, hcomb(hvec(ex.x), hbytes(&ex.stepsize, sizeof(double)))));
         // never more than max_iterations steps
